@@ -26,7 +26,7 @@ FloatFinite == FloatInt32 \cup FloatIntBig \cup FloatFrac
 NonFinite  == {"NAN", "PINF", "NINF"}
 FloatToks  == FloatFinite \cup NonFinite
 StrNumInt  == {"sS", "sONE", "sZERO", "sMAX", "sMIN"}             \* text of an integer within 32 bits
-StrNumOther == {"sOVER", "sFRAC"}                                \* text of another number
+StrNumOther == {"sOVER", "sFRAC", "s2P53", "sHUGE"}              \* text of another number
 StrPlain   == {"sEMPTY", "sBLANK", "sTXT", "sUNI", "sTRUE", "sFALSE", "sNONFIN"}  \* sNONFIN: "nan", "inf", "1e999" - text float() would read as non-finite
 StrToks    == StrNumInt \cup StrNumOther \cup StrPlain
 Others     == {"LIST", "DICT", "BYTES", "TUPLE", "SET", "OBJ", "EXC"}
@@ -39,7 +39,8 @@ FloatOfInt == [ iS |-> "fS", iONE |-> "fONE", iZERO |-> "fZERO", iMAX |-> "fMAX"
 IntOfStr   == [ sS |-> "iS", sONE |-> "iONE", sZERO |-> "iZERO", sMAX |-> "iMAX", sMIN |-> "iMIN" ]
 StrOfInt   == [ iS |-> "sS", iONE |-> "sONE", iZERO |-> "sZERO", iMAX |-> "sMAX", iMIN |-> "sMIN", iOVER |-> "sOVER",
                 i2P53 |-> "s2P53", iHUGE |-> "sHUGE" ]
-FloatOfStr == [ sS |-> "fS", sONE |-> "fONE", sZERO |-> "fZERO", sMAX |-> "fMAX", sMIN |-> "fMIN", sOVER |-> "fOVER", sFRAC |-> "fFRAC" ]
+FloatOfStr == [ sS |-> "fS", sONE |-> "fONE", sZERO |-> "fZERO", sMAX |-> "fMAX", sMIN |-> "fMIN", sOVER |-> "fOVER", sFRAC |-> "fFRAC",
+                s2P53 |-> "f2P53", sHUGE |-> "fHUGEI" ]
 IntOfBool  == [ bT |-> "iONE", bF |-> "iZERO" ]
 FloatOfBool == [ bT |-> "fONE", bF |-> "fZERO" ]
 StrOfBool  == [ bT |-> "sTRUE", bF |-> "sFALSE" ]
@@ -153,7 +154,7 @@ LawDates == \A s \in DateScalars :
    /\ \A t \in DateToks \ {STok(s)} : InDate(s, t) = {FAIL}                         \* nothing else is accepted
 
 \* ---- wire types and "denotes" --------------------------------------------------------------
-ResultToks == Tokens \cup {"s2P53", "sHUGE"}
+ResultToks == Tokens
 WireOK(s, r) ==
   IF s = "Int" THEN r \in IntIn32 \cup FloatInt32
   ELSE IF s = "Float" THEN r \in FloatFinite
